@@ -39,7 +39,9 @@ def gen_corr(rng):
          'H': rng.choice([None, 0.0, -0.0, round(rng.uniform(-60, 40), 7), -12.345678901234]),
          'S': rng.choice([None, 0.0, round(rng.uniform(-5, 40), 7)]),
          'Ts': Ts, 'Cps': Cps, 'range': None}
-    if Ts:
+    if Ts and min(Ts) <= j['T_ref'] <= max(Ts) and rng.random() < 0.35:
+        j['range'] = None          # no declared range: T_ref lies inside the tabulated span
+    elif Ts:
         j['range'] = rng.choice([[50.0, 3000.0], [min(Ts + [j['T_ref']]), max(Ts + [j['T_ref']])], [99.5, 1666.66]])
     elif rng.random() < 0.5:
         j['range'] = rng.choice([[100.0, 1500.0], [250.0, 1000.5]])
